@@ -3,6 +3,7 @@ package main
 import (
 	"bufio"
 	"fmt"
+	"math"
 	"strings"
 	"unicode/utf16"
 
@@ -327,7 +328,9 @@ func runC11(env0 *env, w *bufio.Writer, n int, corpus string) {
 					toks = append(toks, "U")
 					continue
 				}
-				f := []float64{0, 1, 255, 256, 257, -1, -256, 1e3, 65535.9, -0.5, 4294967296, 300.7}[r.Intn(12)]
+				f := []float64{0, 1, 255, 256, 257, -1, -256, 1e3, 65535.9, -0.5, 4294967296, 300.7,
+					9223372036854775808, 18446744073709551616, 1e20, 1e300, math.Inf(1), math.Inf(-1), math.NaN(), -9223372036854775808,
+					9007199254740994, -1e20, 9223372036854775808 + 4096, 4611686018427387904 + 1024 + 512}[r.Intn(24)]
 				toks = append(toks, "N:"+hx.F64Bits(f))
 				arr.Set(fmt.Sprint(i), f)
 			}
